@@ -105,11 +105,11 @@ func (r *Router) Match(method, path string) (route *Route, ps Params, alm []stri
 // ps  - route path Params, when has path vars.
 // alm - allowed request methods
 func (r *Router) QuickMatch(method, path string) (route *Route, ps Params, alm []string) {
+	// Notice: the intercept path must be formatted like a request path, routes are stored by formatted path.
 	if r.interceptAll != "" {
 		path = r.interceptAll
-	} else {
-		path = r.formatPath(path)
 	}
+	path = r.formatPath(path)
 
 	// do match route
 	if route, ps = r.match(method, path); route != nil {
